@@ -261,6 +261,9 @@ fn local_tamper<V: Backend>(a: &Value, hdr: &str) -> (bool, String) {
     };
     match parsed.decrypt_with_aad(&key2, &a2, &nv()) {
         Ok(t) => (true, format!("CONDITION accepted\ntampered token ACCEPTED (class {w}); claims {:?}; token {s2}", t.claims.0)),
+        // the replay payload type (Raw) never fails to decode: a payload-processing error on a token that
+        // fails authentication means the library looked at unauthenticated plaintext (C12)
+        Err(e @ paseto_core::PasetoError::PayloadError(_)) => (true, format!("CONDITION unauthenticated_use\ntampered token (class {w}) rejected with a payload-processing error ({e}): plaintext was used before authentication; token {s2}")),
         Err(e) => (false, format!("rejected: {e}")),
     }
 }
